@@ -35,7 +35,8 @@ INCRATE_FILES = {
     "range_set.rs": ("read_in", "collections::range_set::verif_harness"),
     "engine.rs": ("skrifa_in", "outline::glyf::hint::engine::verif_harness"),
     "engine_ops.rs": ("skrifa_in", "outline::glyf::hint::engine::verif_harness"),
-    "traversal.rs": ("skrifa_in", "color::traversal::verif_harness"),
+    "decycler.rs": ("skrifa_in", "decycler::verif_harness"),
+    "glyf_memory.rs": ("skrifa_in", "outline::glyf::memory::verif_harness"),
     "simple.rs": ("write_in", "tables::glyf::simple::verif_harness"),
     "cmap.rs": ("write_in", "tables::cmap::verif_harness"),
     "font_builder.rs": ("write_in", "font_builder::verif_harness"),
